@@ -22,7 +22,26 @@ FetchSeek(rq) ==
   /\ hist' = Append(hist, <<"seek", rq[1], rq[2], rq[3]>>)
   /\ UNCHANGED wl
 
-SNext == Next \/ (\E rq \in (-1..(WLen - 1)) \X (-1..(2 * WLen)) \X (0..TotalBytes(WLen)) : FetchSeek(rq))
+\* seek + upgrade without block or hash: any byte of the writer's log while the replica is behind
+SeekUpRequests == IF rep.rl < wl THEN 0..TotalBytes(wl) ELSE {}
+SeekUpResult(bytes) ==
+  LET hp == HonestSeekUpProof(rep, bytes, wl) IN VerifyProofX(rep, hp.proof, 0, FALSE, "none", hp.seek)
+FetchSeekUp(bytes) ==
+  /\ bytes \in SeekUpRequests
+  /\ LET r == SeekUpResult(bytes) IN r.ok /\ rep' = Apply(rep, r)
+  /\ hist' = Append(hist, <<"seek", -1, -1, bytes>>)
+  /\ UNCHANGED wl
+SeekUpAccepted ==
+  \A bytes \in SeekUpRequests :
+    LET r == SeekUpResult(bytes) hp == HonestSeekUpProof(rep, bytes, wl) IN
+    /\ r.ok /\ SoundResult(rep, r, wl) /\ r.len = wl
+    \* the byte lies in the range of the node the seek ended at (or the seek ran off the end)
+    /\ hp.seekroot = 2 * wl
+       \/ (ByteOffset(hp.seekroot) <= bytes /\ bytes <= ByteOffset(hp.seekroot) + TrueNode(hp.seekroot).size)
+
+SNext == \/ Next
+         \/ (\E rq \in (-1..(WLen - 1)) \X (-1..(2 * WLen)) \X (0..TotalBytes(WLen)) : FetchSeek(rq))
+         \/ (\E bytes \in 0..TotalBytes(WLen) : FetchSeekUp(bytes))
 SSpec == Init /\ [][SNext]_mvars
 
 SeekAccepted ==
@@ -51,5 +70,17 @@ SeekLine(rq) ==
                 NodesOf(hp.proof, IF rq[1] >= 0 THEN "block" ELSE "hash")[j].idx],
    seek |-> [j \in 1..Len(hp.seek) |-> hp.seek[j].idx],
    up |-> [j \in 1..Len(NodesOf(hp.proof, "up")) |-> NodesOf(hp.proof, "up")[j].idx]]
-ExportSeek == \A rq \in SeekRequests : PrintT(<<"SEEK", ToJson(SeekLine(rq))>>)
+SeekUpLine(bytes) ==
+  LET hp == HonestSeekUpProof(rep, bytes, wl) IN
+  [sizes |-> Sizes, wl |-> wl, hist |-> hist, b |-> -1, h |-> -1, bytes |-> bytes, rl |-> rep.rl,
+   block |-> <<>>,
+   seek |-> [j \in 1..Len(hp.seek) |-> hp.seek[j].idx],
+   up |-> [j \in 1..Len(NodesOf(hp.proof, "up")) |-> NodesOf(hp.proof, "up")[j].idx]]
+\* for longer logs: only the requests that get a seek section, and every seek + upgrade request
+ExportSeekSel ==
+  /\ \A rq \in SeekRequests :
+       HonestSeekProof(rep, rq[1], rq[2], rq[3], wl).seek # <<>> => PrintT(<<"SEEK", ToJson(SeekLine(rq))>>)
+  /\ \A bytes \in SeekUpRequests : PrintT(<<"SEEK", ToJson(SeekUpLine(bytes))>>)
+ExportSeek == /\ \A rq \in SeekRequests : PrintT(<<"SEEK", ToJson(SeekLine(rq))>>)
+              /\ \A bytes \in SeekUpRequests : PrintT(<<"SEEK", ToJson(SeekUpLine(bytes))>>)
 =============================================================================
